@@ -254,6 +254,7 @@ static size_t image_of(const void *vt_class, const void *ctx, size_t extra, uint
     tag = r->size; memcpy(buf + o, &tag, 8); o += 8;
     if (r->live && o + r->size <= cap) {
         size_t i;
+        tag = verif_shadow_sig(r->ptr, r->size);   /* which bytes of the block are uninitialised is part of the image */
         memcpy(buf + o, r->ptr, r->size);
         verif_unpoison(buf + o, r->size);   /* the harness may look at bytes the library never wrote; only the library may not use them */
         /* normalise self-pointers (base_ptr) */
@@ -263,6 +264,7 @@ static size_t image_of(const void *vt_class, const void *ctx, size_t extra, uint
             if (w == (uint64_t)(uintptr_t)r->ptr) { w = 0xBA5EBA5EBA5EBA5EULL; memcpy(buf + o + i, &w, 8); i += 7; }
         }
         o += r->size;
+        if (o + 8 <= cap) { memcpy(buf + o, &tag, 8); o += 8; }
     }
     return o;
 }
